@@ -245,6 +245,17 @@ def normalisation_loops(ctx, rule):
         nexts = [bi for bi, t in b.calls() if (t.get("resolved") or "").endswith("Normalize<'a> as std::iter::Iterator>::next")]
         hdr = cfg.inner_header(nexts[0]) if nexts else None
         ok_path = hdr is not None and all(cfg.every_path_passes(0, [hdr]) for _ in [0]) and cfg.dominates(nbi, hdr)
+        if not ok_path:
+            # the iteration handed to a consuming adaptor as a whole: Normalize::new(..).for_each(..) / buffer.extend(Normalize::new(..))
+            for cbi, ct in b.calls():
+                if U.callee_is(ct, "Iterator::for_each", "Iterator::fold", "Iterator::collect", "Extend::extend", "Vec::extend") and \
+                        any(isinstance(x, tuple) and x and x[0] == "call" and x[1].endswith("Normalize::new")
+                            for a_ in ct["args"] for x in S.walk(sy.operand(a_))) and \
+                        not any(isinstance(x, tuple) and x and x[0] == "call" and x[1].endswith(("Iterator::take", "Iterator::skip",
+                                "Iterator::take_while", "Iterator::skip_while", "Iterator::filter", "Iterator::step_by"))
+                                for a_ in ct["args"] for x in S.walk(sy.operand(a_))):
+                    if cfg.every_path_passes(0, [cbi]) and cfg.dominates(nbi, cbi):
+                        ok_path = True
         ok_args = src == ("arg", 2) and bool(mp and mp[0] == "arg" and mp[1] == 1 and mp[2] == [mapf])
         if ok_path and ok_args:
             ctx.ok(rule, key, where(b, nbi, nt), "%s walks Normalize::new(word, &self.%s) on every path to every return" % (name, mapf),
